@@ -1,109 +1,88 @@
 (** C18 -- model of cicada's history storage (src/history.rs, src/builtins/history.rs,
-    the recording rule of src/main.rs).
+    the recording rule of src/main.rs), as repaired by b952f8c: every statement is a
+    TEMPLATE (assembled from fixed fragments, the table name, option flags and a
+    numeral) plus a vector of BOUND PARAMETERS (line text, session id, directory
+    record, search pattern).
 
-    What the property turns on is the TEXT of the SQL statements that cicada
-    assembles with format!, and how sqlite reads a string literal inside that
-    text.  So the model is: (1) the three statement texts as functions over
-    [str]; (2) sqlite's string-literal lexing (quote ... quote with the doubled
-    quote as escape; code point 0 ends the input); (3) a recogniser for the
-    shape of the INSERT statement (tuples of literals / numerals) that says which
-    rows a statement text inserts; (4) the table as a list of rows with sqlite's
-    rowid allocation, LIKE matching, ORDER BY tsb / LIMIT; (5) the main loop's
-    decision whether a line is recorded.  No proofs here. *)
+    The model is: (1) the statement templates and parameter vectors as functions;
+    (2) a recogniser of the INSERT template that says which rows the statement
+    stores, given the meaning of parameter binding -- sqlite stores / compares a
+    bound value verbatim, it is never lexed as SQL (trusted; compared with sqlite
+    on every case); (3) the table as a list of rows with sqlite's rowid
+    allocation, LIKE matching, ORDER BY tsb / LIMIT; (4) the main loop's decision
+    whether a line is recorded.  No proofs here. *)
 From Coq Require Import ZArith.
 From Cicada Require Import Base.Chars.
 Local Open Scope N_scope.
 
-(* ------------------------------------------------------------------ text *)
-(** str::replace(line, quote, quote quote) *)
-Fixpoint quote_body (s : str) : str :=
-  match s with
-  | [] => []
-  | c :: r => if c =? c_sq then c_sq :: c_sq :: quote_body r else c :: quote_body r
-  end.
-
+(* ------------------------------------------------------------------ statements *)
 (* fixed fragments of the format strings (code points; the text is in the comment) *)
 Definition s_insert_into : str := [73;78;83;69;82;84;32;73;78;84;79;32].            (* INSERT INTO_ *)
 Definition s_cols_values : str :=                                                    (* _(inp, rtn, tsb, tse, sessionid, info) VALUES *)
   [32;40;105;110;112;44;32;114;116;110;44;32;116;115;98;44;32;116;115;101;44;32;115;101;115;115;105;111;110;105;100;44;32;105;110;102;111;41;32;86;65;76;85;69;83].
-Definition s_comma_sp : str := [44;32].                                              (* ,_ *)
+Definition s_placeholders : str :=                                                   (* (?1, ?2, ?3, ?4, ?5, ?6); *)
+  [40;63;49;44;32;63;50;44;32;63;51;44;32;63;52;44;32;63;53;44;32;63;54;41;59].
 Definition s_dir : str := [100;105;114;58].                                          (* dir: *)
 Definition s_bar : str := [124].                                                     (* | *)
+Definition c_pct := 37.
+Definition c_qm := 63.
 
-(** history.rs add_raw: the INSERT text. [status], [tsb], [tse] are the Display
-    renderings of the i32 / f64 values (number formatting is not modelled). *)
-Definition insert_sql (table line status tsb tse session dir : str) : str :=
-  s_insert_into ++ table ++ s_cols_values ++ [c_lp; c_sq] ++ quote_body (trim line) ++ [c_sq] ++
-  s_comma_sp ++ status ++ s_comma_sp ++ tsb ++ s_comma_sp ++ tse ++ s_comma_sp ++
-  [c_sq] ++ session ++ [c_sq] ++ s_comma_sp ++ [c_sq] ++ s_dir ++ dir ++ s_bar ++ [c_sq; c_rp; c_semi].
-
-(** The row the caller of add_raw means to store. *)
+(** a bound parameter: text, or a number (i32 / f64; identified by its numeral, number
+    formatting plays no role any more since numbers are bound, not printed) *)
 Inductive value := VStr (s : str) | VNum (s : str).
+
+(** history.rs add_raw: the INSERT template (a function of the table name only) ... *)
+Definition insert_template (table : str) : str := s_insert_into ++ table ++ s_cols_values ++ s_placeholders.
+(** ... and the parameter vector params![line.trim(), status, tsb, tse, session_id, info] *)
 Definition intended_row (line status tsb tse session dir : str) : list value :=
   [VStr (trim line); VNum status; VNum tsb; VNum tse; VStr session; VStr (s_dir ++ dir ++ s_bar)].
+Definition insert_stmt (table line status tsb tse session dir : str) : str * list value :=
+  (insert_template table, intended_row line status tsb tse session dir).
 
 Definition s_select : str := [83;69;76;69;67;84;32;82;79;87;73;68;44;32;105;110;112;44;32;116;115;98;32;70;82;79;77;32]. (* SELECT ROWID, inp, tsb FROM_ *)
 Definition s_where : str := [32;87;72;69;82;69;32;82;79;87;73;68;32;62;32;48].      (* _WHERE ROWID > 0 *)
-Definition s_and_inp_like : str := [32;65;78;68;32;105;110;112;32;76;73;75;69;32].   (* _AND inp LIKE_ *)
-Definition s_and_session : str := [32;65;78;68;32;115;101;115;115;105;111;110;105;100;32;61;32]. (* _AND sessionid =_ *)
-Definition s_and_info_like : str := [32;65;78;68;32;105;110;102;111;32;108;105;107;101;32]. (* _AND info like_ *)
+Definition s_and_inp_like : str := [32;65;78;68;32;105;110;112;32;76;73;75;69;32;63].   (* _AND inp LIKE ? *)
+Definition s_and_session : str := [32;65;78;68;32;115;101;115;115;105;111;110;105;100;32;61;32;63]. (* _AND sessionid = ? *)
+Definition s_and_info_like : str := [32;65;78;68;32;105;110;102;111;32;108;105;107;101;32;63]. (* _AND info like ? *)
 Definition s_order_asc : str := [32;79;82;68;69;82;32;66;89;32;116;115;98].          (* _ORDER BY tsb *)
 Definition s_order_desc : str := [32;111;114;100;101;114;32;98;121;32;116;115;98;32;100;101;115;99]. (* _order by tsb desc *)
 Definition s_limit : str := [32;108;105;109;105;116;32].                             (* _limit_ *)
-Definition c_pct := 37.
 
 Record lopts := mko { o_session : bool; o_asc : bool; o_pwd : bool; o_limit : Z }.
 
-(** The literal that is meant to hold the LIKE pattern:  quote % pattern % quote  *)
-Definition like_lit (inner : str) : str := [c_sq; c_pct] ++ inner ++ [c_pct; c_sq].
+Definition wrap_pct (s : str) : str := [c_pct] ++ s ++ [c_pct].
 Definition pwd_inner (dir : str) : str := s_dir ++ dir ++ s_bar.
 
-(** builtins/history.rs list_current_history: the SELECT text ([limit] = Display of the i32). *)
-Definition select_sql (table pattern session dir : str) (o : lopts) (limit : str) : str :=
-  let sql := s_select ++ table ++ s_where in
-  let sql := if is_empty pattern then sql else sql ++ s_and_inp_like ++ like_lit pattern in
-  let sql := if o_session o then sql ++ s_and_session ++ [c_sq] ++ session ++ [c_sq] else sql in
-  let sql := if o_pwd o then sql ++ s_and_info_like ++ like_lit (pwd_inner dir) else sql in
-  let sql := if o_asc o then sql ++ s_order_asc else sql ++ s_order_desc in
-  sql ++ s_limit ++ limit ++ [c_space].
+(** One optional WHERE clause = a fixed fragment with one placeholder + the value bound to it. *)
+Inductive clause := CInpLike (p : str) | CSessionEq (s : str) | CInfoLike (p : str).
+Definition clause_sql (c : clause) : str :=
+  match c with CInpLike _ => s_and_inp_like | CSessionEq _ => s_and_session | CInfoLike _ => s_and_info_like end.
+Definition clause_param (c : clause) : str :=
+  match c with CInpLike p => p | CSessionEq s => s | CInfoLike p => p end.
+
+(** builtins/history.rs list_current_history: the clauses in the order the code appends them *)
+Definition select_clauses (pattern session dir : str) (o : lopts) : list clause :=
+  (if is_empty pattern then [] else [CInpLike (wrap_pct pattern)]) ++
+  (if o_session o then [CSessionEq session] else []) ++
+  (if o_pwd o then [CInfoLike (wrap_pct (pwd_inner dir))] else []).
+
+(** template ([limit] = Display of the i32) and parameter vector *)
+Definition select_stmt (table pattern session dir : str) (o : lopts) (limit : str) : str * list str :=
+  let cs := select_clauses pattern session dir o in
+  (s_select ++ table ++ s_where ++ concat (map clause_sql cs) ++
+   (if o_asc o then s_order_asc else s_order_desc) ++ s_limit ++ limit ++ [c_space],
+   map clause_param cs).
 
 Definition s_delete : str := [68;69;76;69;84;69;32;102;114;111;109;32].             (* DELETE from_ *)
 Definition s_where_rowid : str := [32;119;104;101;114;101;32;114;111;119;105;100;32;61;32]. (* _where rowid =_ *)
+(** delete_history_item: the only value pasted is a usize *)
 Definition delete_sql (table n : str) : str := s_delete ++ table ++ s_where_rowid ++ n.
 
-(* ------------------------------------------------------------------ sqlite: string literal *)
-(** sqlite3GetToken, case CC_QUOTE with delimiter quote: scan to the next quote
-    that is not followed by a quote; a doubled quote stands for one; the end of
-    the input (or code point 0, which ends the C string) before that = TK_ILLEGAL.
-    [lex_body] is run after the opening quote; result = (value, rest of input). *)
-Fixpoint lex_body (s : str) : option (str * str) :=
-  match s with
-  | [] => None
-  | c :: r =>
-    if c =? 0 then None else
-    if c =? c_sq then
-      match r with
-      | c2 :: r2 =>
-        if c2 =? c_sq then
-          match lex_body r2 with Some (v, rest) => Some (c_sq :: v, rest) | None => None end
-        else Some ([], r)
-      | [] => Some ([], [])
-      end
-    else match lex_body r with Some (v, rest) => Some (c :: v, rest) | None => None end
-  end.
+Definition has_char (k : char) (s : str) : bool := existsb (fun c => c =? k) s.
+Fixpoint count_char (k : char) (s : str) : nat :=
+  match s with [] => O | c :: r => if c =? k then S (count_char k r) else count_char k r end.
 
-Definition lex_literal (s : str) : option (str * str) :=
-  match s with
-  | c :: r => if c =? c_sq then lex_body r else None
-  | [] => None
-  end.
-
-Definition has_sq (s : str) : bool := existsb (fun c => c =? c_sq) s.
-Definition has_nul (s : str) : bool := existsb (fun c => c =? 0) s.
-Fixpoint count_sq (s : str) : nat :=
-  match s with [] => O | c :: r => if c =? c_sq then S (count_sq r) else count_sq r end.
-
-(* ------------------------------------------------------------------ sqlite: shape of the INSERT *)
+(* ------------------------------------------------------------------ sqlite: the INSERT template and binding *)
 Fixpoint skip_sp (s : str) : str := match s with c :: r => if c =? c_space then skip_sp r else s | [] => [] end.
 
 Fixpoint strip_prefix (p s : str) : option str :=
@@ -113,83 +92,75 @@ Fixpoint strip_prefix (p s : str) : option str :=
   | _ :: _, [] => None
   end.
 
-Definition is_numch (c : char) : bool :=
-  is_digit c || (c =? c_dot) || (c =? c_minus) || (c =? c_plus) || (c =? 101) || (c =? 69).
-
-Fixpoint take_num (s : str) : str * str :=
+(** ?NNN -> (NNN, rest) *)
+Fixpoint take_digits (s : str) (acc : nat) (seen : bool) : option (nat * str) :=
   match s with
-  | c :: r => if is_numch c then let (a, b) := take_num r in (c :: a, b) else ([], s)
-  | [] => ([], [])
+  | c :: r => if is_digit c then take_digits r (10 * acc + N.to_nat (c - 48)) true
+              else if seen then Some (acc, s) else None
+  | [] => if seen then Some (acc, []) else None
   end.
 
-Definition parse_value (s : str) : option (value * str) :=
+Definition parse_placeholder (s : str) : option (nat * str) :=
   match s with
+  | c :: r => if c =? c_qm then take_digits r O false else None
   | [] => None
-  | c :: r =>
-    if c =? c_sq then
-      match lex_body r with Some (v, rest) => Some (VStr v, rest) | None => None end
-    else
-      let (n, rest) := take_num s in
-      if is_empty n then None else Some (VNum n, rest)
   end.
 
-(** value {, value} )   -- after the opening parenthesis *)
-Fixpoint parse_values (fuel : nat) (s : str) : option (list value * str) :=
+(** ?i {, ?j} )   -- after the opening parenthesis *)
+Fixpoint parse_phs (fuel : nat) (s : str) : option (list nat * str) :=
   match fuel with
   | O => None
   | S f =>
-    match parse_value (skip_sp s) with
+    match parse_placeholder (skip_sp s) with
     | None => None
-    | Some (v, r) =>
+    | Some (i, r) =>
       match skip_sp r with
       | c :: r' =>
         if c =? c_comma then
-          match parse_values f r' with Some (vs, r'') => Some (v :: vs, r'') | None => None end
-        else if c =? c_rp then Some ([v], r')
+          match parse_phs f r' with Some (is, r'') => Some (i :: is, r'') | None => None end
+        else if c =? c_rp then Some ([i], r')
         else None
       | [] => None
       end
     end
   end.
 
-(** (tuple) {, (tuple)} then ; or the end of the text.  What follows the first ;
-    is not read: rusqlite's execute (no extra_check feature) prepares and runs
-    the first statement only. *)
-Fixpoint parse_tuples (fuel : nat) (s : str) : option (list (list value)) :=
-  match fuel with
-  | O => None
-  | S f =>
-    match skip_sp s with
-    | c :: r =>
-      if c =? c_lp then
-        match parse_values (length r) r with
-        | None => None
-        | Some (vs, r') =>
-          match skip_sp r' with
-          | [] => Some [vs]
-          | d :: r'' =>
-            if d =? c_semi then Some [vs]
-            else if d =? c_comma then
-              match parse_tuples f r'' with Some ts => Some (vs :: ts) | None => None end
-            else None
-          end
-        end
-      else None
-    | [] => None
-    end
-  end.
-
 Definition bind {A B} (o : option A) (f : A -> option B) : option B :=
   match o with Some a => f a | None => None end.
 
-(** Some rows = the text is an INSERT of the canonical shape that stores exactly
-    these rows (6 values each); None = not of that shape. *)
-Definition parse_insert (table s : str) : option (list (list value)) :=
-  bind (strip_prefix s_insert_into s) (fun s1 =>
+Fixpoint all_some {A} (l : list (option A)) : option (list A) :=
+  match l with
+  | [] => Some []
+  | Some a :: r => match all_some r with Some t => Some (a :: t) | None => None end
+  | None :: _ => None
+  end.
+
+(** The rows an (INSERT template, parameters) pair stores: the template must be
+    INSERT INTO table (the six columns) VALUES( placeholders ) ; and each
+    placeholder ?i stands for the i-th bound value, verbatim (parameter binding).
+    None = not of that shape / a placeholder without a value. *)
+Definition insert_rows (table : str) (stmt : str * list value) : option (list (list value)) :=
+  let (sql, params) := stmt in
+  bind (strip_prefix s_insert_into sql) (fun s1 =>
   bind (strip_prefix table s1) (fun s2 =>
   bind (strip_prefix s_cols_values s2) (fun s3 =>
-  bind (parse_tuples (S (S (length s3))) s3) (fun ts =>
-  if forallb (fun t => Nat.eqb (length t) 6) ts then Some ts else None)))).
+  match skip_sp s3 with
+  | c :: r =>
+    if c =? c_lp then
+      bind (parse_phs (length r) r) (fun ir =>
+      match skip_sp (snd ir) with
+      | d :: _ =>
+        if d =? c_semi then
+          if Nat.eqb (length (fst ir)) 6 then
+            bind (all_some (map (fun i => nth_error params (pred i)) (fst ir))) (fun row =>
+            if existsb (Nat.eqb 0) (fst ir) then None else Some [row])
+          else None
+        else None
+      | [] => None
+      end)
+    else None
+  | [] => None
+  end))).
 
 (* ------------------------------------------------------------------ the table *)
 Record row := mkrow { r_id : N; r_inp : str; r_tsb : Z; r_session : str; r_info : str }.
@@ -220,12 +191,16 @@ Fixpoint like (p : str) : str -> bool :=
       end
   end.
 
-Definition wrap_pct (s : str) : str := [c_pct] ++ s ++ [c_pct].
+(** a clause holds of a row: the bound value is compared verbatim *)
+Definition clause_holds (r : row) (c : clause) : bool :=
+  match c with
+  | CInpLike p => like p (r_inp r)
+  | CSessionEq s => str_eqb (r_session r) s
+  | CInfoLike p => like p (r_info r)
+  end.
 
 Definition row_matches (pattern session dir : str) (o : lopts) (r : row) : bool :=
-  (is_empty pattern || like (wrap_pct pattern) (r_inp r)) &&
-  (negb (o_session o) || str_eqb (r_session r) session) &&
-  (negb (o_pwd o) || like (wrap_pct (pwd_inner dir)) (r_info r)).
+  forallb (clause_holds r) (select_clauses pattern session dir o).
 
 (** stable insertion sort by tsb (ties keep rowid order; sqlite leaves ties unspecified) *)
 Fixpoint ins_asc (x : row) (l : list row) : list row :=
